@@ -322,6 +322,11 @@ class AST2SCFGTransformer:
         """
         for node in tree:
             self.handle_ast_node(node)
+            # Anything that follows a return, break or continue in the same
+            # suite is unreachable and must not end up in the current block,
+            # as that would hide the terminator from the sealing rules.
+            if isinstance(node, (ast.Return, ast.Break, ast.Continue)):
+                break
 
     def handle_ast_node(self, node: type[ast.AST] | ast.stmt) -> None:
         """Dispatch an AST node to handle."""
